@@ -93,7 +93,23 @@ def _push_derived(m, r, cg, f: FuncInfo, name: str, depth=0) -> bool:
                 return False
         return True
     defs = c05._assignments_to(f, name)
-    return bool(defs) and all(idx is None and isinstance(v, ast.Call) and r.role_of_call(f, v) == "push_shape_memo" for _, v, idx in defs)
+    if defs:
+        return all(idx is None and isinstance(v, ast.Call) and r.role_of_call(f, v) == "push_shape_memo" for _, v, idx in defs)
+    # `with C(...) as name:` where C.__enter__ returns the tuple push_shape_memo returned
+    for n in walk_scope(f.node):
+        if isinstance(n, (ast.With, ast.AsyncWith)):
+            for it in n.items:
+                if isinstance(it.optional_vars, ast.Name) and it.optional_vars.id == name and isinstance(it.context_expr, ast.Call):
+                    t = m.resolve_call(f, it.context_expr)
+                    if t.kind == "class":
+                        en = m.lookup_method(t.target, "__enter__")
+                        if en is not None:
+                            rets = [x.value for x in walk_scope(en.node) if isinstance(x, ast.Return)]
+                            if rets and all(isinstance(v, ast.Call) and r.role_of_call(en, v) == "push_shape_memo" for v in rets):
+                                return True
+                            if rets and all(isinstance(v, ast.Name) and _push_derived(m, r, cg, en, v.id, depth + 1) for v in rets):
+                                return True
+    return False
 
 
 def check_freshness(ctx, r, cg):
@@ -221,9 +237,10 @@ def check_stage_wiring(ctx, r):
                 else:
                     ctx.ok("C13.3", impl.qualname, f"{stage}-check handler raises TypeCheckError with a message about the {'parameters' if stage == 'param' else 'return value'}")
                 # names the function: module + qualname holes
-                holes = {norm(v.value) for n in ast.walk(hd) if isinstance(n, ast.JoinedStr) for v in n.values if isinstance(v, ast.FormattedValue)}
-                if not ({"qualname", "module_name"} <= holes):
-                    ctx.bad("C13.3", impl, hd, "the error message does not name the function (module and qualname)", construct=f"{stage}-check handler lacks module/qualname holes")
+                # names the function: somewhere in the handler fn's __qualname__ (or a helper applied to fn) is read
+                txt = norm(hd)
+                if "__qualname__" not in txt and not any(isinstance(c, ast.Call) and any(isinstance(a, ast.Name) and a.id == "fn" for a in c.args) for c in ast.walk(hd)):
+                    ctx.bad("C13.3", impl, hd, "the error message does not name the function (fn.__qualname__ is never read in the handler)", construct=f"{stage}-check handler never reads the function's name")
     # TypeCheckError is a TypeError; AnnotationError is not
     h2 = ExcHierarchy(m)
     if not h2.is_sub("TypeCheckError", "TypeError"):
